@@ -7,7 +7,7 @@
    `read dec r path stored` = the bytes reader entry point `r` hands to its parser (None = the
    read fails).  All statements are for ALL byte strings and ALL paths. *)
 From Coq Require Import List ZArith Bool.
-From IB Require Import IO.Compression Proofs.CompressionProofs.
+From IB Require Import IO.Compression Proofs.CompressionProofs Proofs.CompressionRegistryProofs.
 Import ListNotations.
 Open Scope Z_scope.
 
@@ -218,3 +218,135 @@ Proof. exact entry_points. Qed.
 
 Example c10_entry_points_ex : writer_detects WJsonlPar = true /\ reader_detects RParquetVec = false.
 Proof. split; reflexivity. Qed.
+
+(* ====================================================================================
+   The registry is process state: register_codec may be called before or after the first I/O.
+   ==================================================================================== *)
+
+(* a custom codec: extension ".myz", magic "MYZ1"; and one whose extension "z" and magic 0x1f
+   overlap built-in ones *)
+Definition ex_custom : centry :=
+  {| ce_id := CCustom 0; ce_exts := [[46; 109; 121; 122]]; ce_magic := Some [77; 89; 90; 49] |}.
+Definition ex_overlap : centry :=
+  {| ce_id := CCustom 1; ce_exts := [[122]]; ce_magic := Some [31] |}.
+Definition exr_enc (c : cid) (b : bytes) : bytes :=
+  match c with CBuiltin c' => signature c' ++ b | CCustom _ => [77; 89; 90; 49] ++ b end.
+Definition exr_dec (c : cid) (s : bytes) : option bytes :=
+  match c with CBuiltin c' => ex_strip (signature c') s | CCustom _ => ex_strip [77; 89; 90; 49] s end.
+
+(* whatever the interleaving of I/O calls (get_registry) and registrations, detection sees the
+   four built-in codecs first and then the registered ones in registration order; in particular
+   registering BEFORE the first I/O call does not lose the built-in codecs *)
+Theorem c10_registry_builtins_first :
+  forall ops, reg_view (reg_run ops) = registry_after (registered ops).
+Proof. exact registry_builtins_first. Qed.
+
+Example c10_registry_builtins_first_ex :
+  reg_view (reg_run [OpRegister ex_custom; OpGet; OpRegister ex_overlap]) =
+  builtin_entries ++ [ex_custom; ex_overlap] /\
+  reg_view (reg_run [OpGet; OpRegister ex_custom]) = builtin_entries ++ [ex_custom].
+Proof. split; reflexivity. Qed.
+
+(* a built-in decision is never changed by a registration, overlapping or not *)
+Theorem c10_register_builtin_wins_ext :
+  forall cs path c, has_ext c path = true ->
+    detect_ext_in (registry_after cs) path = Some (CBuiltin c).
+Proof. exact builtin_wins_ext. Qed.
+
+(* "y.jsonl.gz" also ends with the custom extension "z" *)
+Example c10_register_builtin_wins_ext_ex :
+  entry_has_ext ex_overlap p_gz = true /\
+  detect_ext_in (registry_after [ex_overlap]) p_gz = Some (CBuiltin Gzip).
+Proof. split; vm_compute; reflexivity. Qed.
+
+Theorem c10_register_builtin_wins_magic :
+  forall cs s c, starts_with (signature c) s = true ->
+    detect_magic_in (registry_after cs) s = Some (CBuiltin c).
+Proof. exact builtin_wins_magic. Qed.
+
+Example c10_register_builtin_wins_magic_ex :
+  entry_has_magic ex_overlap [31; 139; 8] = true /\
+  detect_magic_in (registry_after [ex_overlap]) [31; 139; 8] = Some (CBuiltin Gzip) /\
+  detect_magic_in (registry_after [ex_overlap]) [31; 0] = Some (CCustom 1).
+Proof. repeat split; vm_compute; reflexivity. Qed.
+
+(* registered codecs whose extensions / magic do not match leave every decision of every entry
+   point exactly as in a process that registered nothing *)
+Theorem c10_register_conservative :
+  forall cs,
+    (forall w p, no_custom_ext cs p ->
+       ep_writer_codec_in (registry_after cs) w p = option_map CBuiltin (ep_writer_codec w p)) /\
+    (forall r p s, no_custom_ext cs p -> no_custom_magic cs s ->
+       ep_reader_codec_in (registry_after cs) r p s = option_map CBuiltin (ep_reader_codec r p s)).
+Proof. exact conservative. Qed.
+
+Example c10_register_conservative_ex :
+  no_custom_ext [ex_custom] p_csv /\ no_custom_magic [ex_custom] bz_text /\
+  ep_reader_codec_in (registry_after [ex_custom]) RCsvVec p_csv bz_text = None /\
+  ep_writer_codec_in (registry_after [ex_custom]) WCsvPar p_GZ = Some (CBuiltin Gzip).
+Proof.
+  split; [intros e [<- | []]; vm_compute; reflexivity|].
+  split; [intros e [<- | []]; vm_compute; reflexivity|].
+  split; vm_compute; reflexivity.
+Qed.
+
+Theorem c10_no_registration :
+  forall w r p s,
+    ep_writer_codec_in builtin_entries w p = option_map CBuiltin (ep_writer_codec w p) /\
+    ep_reader_codec_in builtin_entries r p s = option_map CBuiltin (ep_reader_codec r p s).
+Proof. exact no_registration. Qed.
+
+Example c10_no_registration_ex :
+  ep_writer_codec_in builtin_entries WJsonlVec p_gz = Some (CBuiltin Gzip).
+Proof. vm_compute. reflexivity. Qed.
+
+(* the property for built-in codecs under ANY sequence of registrations and I/O calls *)
+Theorem c10_register_ext_roundtrip :
+  forall (enc : cid -> bytes -> bytes) (dec : cid -> bytes -> option bytes),
+    (forall c b, dec (CBuiltin c) (enc (CBuiltin c) b) = Some b) ->
+    (forall c b, starts_with (signature c) (enc (CBuiltin c) b) = true) ->
+    forall ops c w r path b,
+      writer_detects w = true -> reader_detects r = true -> has_ext c path = true ->
+      let reg := reg_view (reg_run ops) in
+      write_in enc reg w path b = enc (CBuiltin c) b /\
+      starts_with (signature c) (write_in enc reg w path b) = true /\
+      read_in dec reg r path (write_in enc reg w path b) = Some b.
+Proof. exact register_ext_roundtrip. Qed.
+
+(* register first, then the first write goes to "y.jsonl.gz" *)
+Example c10_register_ext_roundtrip_ex :
+  let reg := reg_view (reg_run [OpRegister ex_overlap; OpRegister ex_custom]) in
+  write_in exr_enc reg WJsonlVec p_gz [123; 125; 10] = [31; 139; 123; 125; 10] /\
+  read_in exr_dec reg RJsonlVec p_gz (write_in exr_enc reg WJsonlVec p_gz [123; 125; 10])
+  = Some [123; 125; 10].
+Proof. split; vm_compute; reflexivity. Qed.
+
+Theorem c10_register_neutral_detects :
+  forall (enc : cid -> bytes -> bytes) (dec : cid -> bytes -> option bytes),
+    (forall c b, dec (CBuiltin c) (enc (CBuiltin c) b) = Some b) ->
+    (forall c b, starts_with (signature c) (enc (CBuiltin c) b) = true) ->
+    forall ops c r path b,
+      reader_detects r = true -> detect_ext path = None ->
+      no_custom_ext (registered ops) path ->
+      read_in dec (reg_view (reg_run ops)) r path (enc (CBuiltin c) b) = Some b.
+Proof. exact register_neutral_detects. Qed.
+
+Example c10_register_neutral_detects_ex :
+  no_custom_ext (registered [OpRegister ex_custom]) p_csv /\
+  read_in exr_dec (reg_view (reg_run [OpRegister ex_custom])) RCsvVec p_csv
+          (exr_enc (CBuiltin Zstd) [97; 44; 49; 10]) = Some [97; 44; 49; 10].
+Proof. split; [intros e [<- | []]; vm_compute; reflexivity | vm_compute; reflexivity]. Qed.
+
+Theorem c10_register_neutral_verbatim :
+  forall (enc : cid -> bytes -> bytes) (dec : cid -> bytes -> option bytes) ops w r path b,
+    detect_ext path = None -> no_custom_ext (registered ops) path ->
+    (forall c, starts_with (signature c) b = false) -> no_custom_magic (registered ops) b ->
+    let reg := reg_view (reg_run ops) in
+    write_in enc reg w path b = b /\ read_in dec reg r path b = Some b.
+Proof. exact register_neutral_verbatim. Qed.
+
+Example c10_register_neutral_verbatim_ex :
+  let reg := reg_view (reg_run [OpRegister ex_custom]) in
+  write_in exr_enc reg WCsvVec p_csv bz_text = bz_text /\
+  read_in exr_dec reg RCsvVec p_csv bz_text = Some bz_text.
+Proof. split; vm_compute; reflexivity. Qed.
